@@ -886,7 +886,7 @@ def run(chk) -> None:
 MANIFEST_ENTRY = {
     "text": "Static decision on the current source of parser.py of the mechanisms the statement rests on: model in every identity key and in the clash rule, KD-tree index space consistency, model selection, "
     "both null markers, None-safe and correctly directed occupancy comparisons, folded 0.5 A clash distance, PDB columns = wwPDB table, sign-preserving number parsing, no silent skip of atom lines/rows, "
-    "grouping by (label, auth, model) with flush. Multi-model, negative-number and missing-occupancy behaviour is decided for all files because it is a property of these keys and guards, not of sampled files.",
+    "grouping by (label, auth, model) with flush. Multi-model, negative-number and missing-occupancy behaviour is decided for all files because it is a property of these keys and guards, not of sampled files. Since round 4 the reader is also interpreted as a whole (sa/fragment.py with stand-ins for mmcif and file handles) on one document per input class (models, null markers, negative numbers, alternate locations, missing occupancies, clashes, a handle standing at its end), and filter_clashing_atoms on 20 atom lists; silent exits no input class takes are violations.",
     "note": "Trusted: mmcif tokenizer, float parsing, KD-tree completeness. Not decided: CPython's ascending iteration of set(range(n)) that keeps file order (noted).",
-    "technique": "static analysis: identity-key completeness, dominating-guard (None/marker) analysis, slice-table agreement with a pinned format table, closed-world skip classification",
+    "technique": "static analysis: identity-key completeness, dominating-guard (None/marker) analysis, slice-table agreement with a pinned format table, closed-world skip classification + whole-function evaluation of the ast on one document / atom list per input class (stand-ins for mmcif and file objects; nothing of the library is imported or run)",
 }
